@@ -452,4 +452,36 @@ theorem exemption_is_per_call (hit : Pat → Str → Bool) (cfg : Cfg) (tb : Tab
 example : stagesOf cfgX ⟨["hostname".toList, "ip".toList, "ipv6".toList, "mac".toList], false, false⟩ = [Stage.keyword, Stage.password] ∧
     stagesOf cfgX callX = [Stage.hostname, Stage.ip, Stage.keyword, Stage.mac, Stage.password] := by decide
 
+/-! ### width mode (`netstat -neopa`): the MAC clause is FALSE there
+
+The theorems above are for the plain substitution mode.  In width mode `_sub_ip_keep_width` deletes characters of the
+line, so original runs can JOIN and no `Shrinks` statement holds; the mode is tied by correspondence only.  The clause
+itself fails there (known finding width-mode-eats-text): -/
+
+/-- the MAC clause with the code's own delimiter class, for a call in width mode: an address delimited on the line as
+the IPv4 stage receives it has no all-original occurrence after the IPv4 and MAC stages -/
+def MacNoLeakWidth : Prop :=
+  ∀ (ipT macT : List (Str × Str)) (l l1 out : PStr) (pre t post v : Str), TblOk ipT → TblOk macT →
+    chars l = pre ++ t ++ post → MacTok t → macIgnored t = false →
+    EndsOk (fun c => !isMacCls c) pre → StartsOk (fun c => !isMacCls c) post → lookup macT t = some v →
+    ipStage ipT true l = .ok l1 → macStage macT l1 = .ok out → NoOrigOcc t out
+
+/-- FALSE: `1.2.3.100,a6:68:99:76:75:86 52:54:00:aa:bb:cc` — the substitute is 3 characters longer than the address,
+the step removes ` 52` at the first blank behind it, the first MAC now stands before `:` and is not recognised -/
+theorem width_mode_witness : ¬ MacNoLeakWidth := by
+  intro h
+  have := h [("1.2.3.100".toList, "10.230.230.1".toList)]
+    [("a6:68:99:76:75:86".toList, "b5:b4:9a:d5:45:3c".toList), ("52:54:00:aa:bb:cc".toList, "a9:80:fb:e0:9a:bd".toList)]
+    (orig "1.2.3.100,a6:68:99:76:75:86 52:54:00:aa:bb:cc".toList)
+    (ins "10.230.230.1".toList ++ orig ",a6:68:99:76:75:86:54:00:aa:bb:cc".toList)
+    (ins "10.230.230.1".toList ++ orig ",a6:68:99:76:75:86:54:00:aa:bb:cc".toList)
+    "1.2.3.100,".toList "a6:68:99:76:75:86".toList " 52:54:00:aa:bb:cc".toList "b5:b4:9a:d5:45:3c".toList
+    (tblOk_of_all _ (by decide)) (tblOk_of_all _ (by decide)) (by decide)
+    ⟨':', 'a', '6', '6', '8', '9', '9', '7', '6', '7', '5', '8', '6', by decide, by decide, by decide, by decide,
+      by decide, by decide, by decide, by decide, by decide, by decide, by decide, by decide, by decide, rfl⟩
+    (by decide) (by intro c hc; simp at hc; subst hc; decide) (by intro c hc; simp at hc; subst hc; decide) (by decide)
+    (by rfl) (by rfl)
+  exact this (ins "10.230.230.1".toList ++ orig ",".toList) (orig "a6:68:99:76:75:86".toList)
+    (orig ":54:00:aa:bb:cc".toList) (by decide) (allOrig_orig _) (by decide)
+
 end IV.CleanLine
